@@ -1324,7 +1324,7 @@ class Real(base.SimpleAsn1Type):
     def __normalizeBase10(value):
         m, b, e = value
         while m and m % 10 == 0:
-            m /= 10
+            m //= 10
             e += 1
         return m, b, e
 
